@@ -514,6 +514,13 @@ class TLSMemoryBIOProtocol(ProtocolWrapper):
         if self._lostTLSConnection:
             return
 
+        if self._appSendBuffer:
+            # Earlier writes are still waiting (for the handshake to finish,
+            # or for OpenSSL to accept more); these bytes must not overtake
+            # them.
+            self._bufferedWrite(bytes)
+            return
+
         # A TLS payload is 16kB max
         bufferSize = 2**14
 
